@@ -422,15 +422,15 @@ func (o c10Oracle) decide(db int, cmd string, args [][]byte) (fwd bool, out [][]
 // evaluation
 
 type c10Scn struct {
-	Part string  `json:"part"`
-	Fam  string  `json:"fam,omitempty"`
-	Cfg  c10Cfg  `json:"cfg"`
-	What string  `json:"what,omitempty"` // which evaluation failed (set on violations): key | db | cmdname | command
-	Db   int     `json:"db"`
-	Cmd  string  `json:"cmd,omitempty"`
-	Args []bstr  `json:"args,omitempty"`
-	Key  *bstr   `json:"key,omitempty"`
-	N    int     `json:"n,omitempty"` // evaluations folded into this execution
+	Part string `json:"part"`
+	Fam  string `json:"fam,omitempty"`
+	Cfg  c10Cfg `json:"cfg"`
+	What string `json:"what,omitempty"` // which evaluation failed (set on violations): key | db | cmdname | command
+	Db   int    `json:"db"`
+	Cmd  string `json:"cmd,omitempty"`
+	Args []bstr `json:"args,omitempty"`
+	Key  *bstr  `json:"key,omitempty"`
+	N    int    `json:"n,omitempty"` // evaluations folded into this execution
 }
 
 type c10Env struct {
@@ -721,11 +721,11 @@ func c10Lists(specs [][]uint16, n int) [][][]uint16 {
 // HASH_SLOT is that slot (found by search).
 func c10SlotKeys(targets []int) []string {
 	forms := []func(n int) string{
-		func(n int) string { return fmt.Sprintf("k%d", n) },           // no braces
-		func(n int) string { return fmt.Sprintf("{t%d}x", n) },        // one tag
-		func(n int) string { return fmt.Sprintf("{t%d}{u}", n) },      // several pairs: first decides
-		func(n int) string { return fmt.Sprintf("x{t%d}y{z}w}", n) },  // tag in the middle, later pair and stray brace
-		func(n int) string { return fmt.Sprintf("{}{q%d}", n) },       // empty first tag: whole key hashed
+		func(n int) string { return fmt.Sprintf("k%d", n) },              // no braces
+		func(n int) string { return fmt.Sprintf("{t%d}x", n) },           // one tag
+		func(n int) string { return fmt.Sprintf("{t%d}{u}", n) },         // several pairs: first decides
+		func(n int) string { return fmt.Sprintf("x{t%d}y{z}w}", n) },     // tag in the middle, later pair and stray brace
+		func(n int) string { return fmt.Sprintf("{}{q%d}", n) },          // empty first tag: whole key hashed
 		func(n int) string { return fmt.Sprintf("\xff{\xfe%d}\x00", n) }, // binary bytes around and inside the tag
 	}
 	var out []string
